@@ -113,6 +113,10 @@ type Case struct {
 	ErrMeta map[string]string `json:"errMeta,omitempty"`
 
 	PadStdout    int64  `json:"padStdout,omitempty"`
+	// Earlier: before the judged call the SAME plugin object answers one get-plugin-metadata call
+	// with a complete, valid reply (the executable's behaviour is rewritten in between): what a
+	// plugin object saw in an earlier reply is not part of a later reply
+	Earlier      bool   `json:"earlier,omitempty"`
 	PadStderr    int64  `json:"padStderr,omitempty"`
 	PadStdoutKey string `json:"padStdoutKey,omitempty"`
 	PadStderrKey string `json:"padStderrKey,omitempty"`
@@ -444,8 +448,16 @@ func genProduct(rt *rapid.T) *Case {
 	}
 	c.Stdout = genStdout(rt, c.Out, c.Reply, c.Name)
 	c.Err = rp.Pick(rt, "stderrKind", stderrKinds...)
+	if c.Err == "structured" && rapid.IntRange(0, 5).Draw(rt, "largeStructuredError") == 0 {
+		// a structured error whose message is large but far below the output cap: it is the plugin's
+		// own error all the same (the fake plugin writes the message as PadStderr times 'a')
+		c.ErrMsg = ""
+		c.PadStderrKey, c.PadStderr = "errorMessage", rp.Pick(rt, "largeMessage", int64(60<<10), 64<<10, 64<<10+1, 100<<10, 1<<20, 5<<20)
+	}
 	c.Stderr = genStderr(rt, c.Err, c)
 	c.Ctx = rp.Pick(rt, "ctx", "background", "background", "generous", "cancelable")
+	// Earlier: the same plugin object has answered a complete get-plugin-metadata reply before
+	c.Earlier = rapid.IntRange(0, 2).Draw(rt, "earlierMetadataCall") == 0
 	return c
 }
 
@@ -498,6 +510,7 @@ func TestMain(m *testing.M) {
 
 type sandbox struct {
 	root, dir, exe, marker, pidFile string
+	behaviour, honest               []byte // the case's behaviour file and an honest metadata-only one
 	// base, when set, is the context every call of this sandbox derives its own context from
 	// (used to hand the library a logger that doubles as a scheduling point)
 	base context.Context
@@ -537,7 +550,10 @@ func prepare(c *Case) (*sandbox, error) {
 		script["get-plugin-metadata"] = map[string]any{"stdout": mustJSON(&pf.GetMetadataResponse{Name: c.Name, Description: "fake plugin", Version: "1.0.0",
 			URL: "https://example.test/plugin", SupportedContractVersions: []string{pf.ContractVersion}, Capabilities: capabilities})}
 	}
-	if err := os.WriteFile(filepath.Join(sb.dir, "behaviour.json"), []byte(mustJSON(script)), 0o644); err != nil {
+	sb.behaviour = []byte(mustJSON(script))
+	sb.honest = []byte(mustJSON(map[string]any{"get-plugin-metadata": map[string]any{"stdout": mustJSON(&pf.GetMetadataResponse{Name: c.Name, Description: "fake plugin (earlier, complete reply)", Version: "9.9.9",
+		URL: "https://example.test/earlier", SupportedContractVersions: []string{pf.ContractVersion}, Capabilities: capabilities})}}))
+	if err := os.WriteFile(filepath.Join(sb.dir, "behaviour.json"), sb.behaviour, 0o644); err != nil {
 		sb.cleanup()
 		return nil, err
 	}
@@ -650,6 +666,14 @@ func (sb *sandbox) call(c *Case) *result {
 	if err != nil {
 		r.getErr = err
 		return r
+	}
+	if c.Earlier {
+		// not judged: a complete reply served by the same plugin object
+		if os.WriteFile(filepath.Join(sb.dir, "behaviour.json"), sb.honest, 0o644) == nil {
+			p.GetMetadata(bg, &pf.GetMetadataRequest{})
+		}
+		os.WriteFile(filepath.Join(sb.dir, "behaviour.json"), sb.behaviour, 0o644)
+		os.Remove(sb.marker)
 	}
 	do := request(c.Cmd)
 	ctx, cancel := bg, context.CancelFunc(func() {})
@@ -1004,8 +1028,12 @@ func judgeOutcome(c *Case, r *result) (string, string) {
 			if re.Err != nil {
 				msg = re.Err.Error()
 			}
-			if string(re.Code) != c.ErrCode || msg != c.ErrMsg || !sameMap(re.Metadata, c.ErrMeta) {
-				return "C17:error-mapping:structured-error-content", fmt.Sprintf("printed %s, returned code=%q message=%q metadata=%v", short(c.Stderr), re.Code, msg, re.Metadata)
+			wantMsg := c.ErrMsg
+			if c.PadStderr > 0 && c.PadStderrKey == "errorMessage" {
+				wantMsg = strings.Repeat("a", int(c.PadStderr))
+			}
+			if string(re.Code) != c.ErrCode || msg != wantMsg || !sameMap(re.Metadata, c.ErrMeta) {
+				return "C17:error-mapping:structured-error-content", fmt.Sprintf("printed %s (message of %d bytes), returned code=%q message=%q (%d bytes) metadata=%v", short(c.Stderr), len(wantMsg), re.Code, short(msg), len(msg), re.Metadata)
 			}
 			return "", ""
 		}
@@ -1096,6 +1124,15 @@ func classesOf(c *Case, r *result) []string {
 		cl = append(cl, "exit=0")
 	}
 	cl = append(cl, "stdout="+c.Out, "stderr="+c.Err, "ctx="+c.Ctx, "via="+c.Via, "timingkind="+c.Timing)
+	if c.Earlier {
+		cl = append(cl, "plugin-object-served-a-complete-metadata-reply-before")
+		if c.Cmd == "get-plugin-metadata" && (strings.HasPrefix(c.Out, "missing-") || strings.HasPrefix(c.Out, "empty-")) {
+			cl = append(cl, "incomplete-metadata-after-complete-metadata-on-one-object")
+		}
+	}
+	if c.Err == "structured" && c.PadStderr > 0 && c.PadStderrKey == "errorMessage" {
+		cl = append(cl, "structured-error-with-large-message")
+	}
 	if c.ChildSleepMs > 0 {
 		cl = append(cl, map[bool]string{true: "descendant-left-the-process-group", false: "descendant-in-the-process-group"}[c.ChildDetached])
 	}
@@ -1137,7 +1174,7 @@ func classesOf(c *Case, r *result) []string {
 func record(rec *stats.Recorder, c *Case, r *result) {
 	nt := !(c.Exit == 0 && !c.Kill && c.Out == "valid" && c.Timing == "immediate")
 	fp := stats.Fingerprint(c.Test, c.Cmd, c.Exit, c.Kill, c.Out, c.Err, c.ErrCode, c.ErrMsg == "", len(c.ErrMeta), c.Timing, c.Ctx, c.Via,
-		c.PadStdout, c.PadStderr, c.PadStdoutKey, c.PadStderrKey)
+		c.PadStdout, c.PadStderr, c.PadStdoutKey, c.PadStderrKey, c.Earlier)
 	rec.Case(classesOf(c, r), nt, fp, func() any { return c })
 }
 
